@@ -420,3 +420,13 @@ func Test36ReturnInBlock(t *testing.T) {
 	}
 	wantOut(t, run(nil, files, "/t.jet", nil, nil), "[fromblock][fromcontent][fromblock]")
 }
+
+func Test37RightOperandPosition(t *testing.T) {
+	v := jet.VarMap{}
+	v.Set("i", 7)
+	v.Set("s", "str")
+	for _, e := range []string{"1 < s", "2 * s", "i - s", "i + nil", "i % nil", "1.5 / s"} {
+		wantErr(t, one("\n{{ "+e+" }}", v, nil), `"/t.jet":2`)
+	}
+	wantOut(t, one(`{{ 1 + "2" }}|{{ i * "3" }}|{{ i == s }}`, v, nil), "3|21|false")
+}
